@@ -5,6 +5,10 @@
 //! (`SELECT *` per table, `_meta_tables`, `_meta_columns_<t>`); one case per step:
 //!   model line = configuration + the history up to that step (with the catalogue observed after each flush),
 //!   implementation output = the dump.
+//! Interleaved stream (`inter:*`): one flush is run step by step — the flush thread is parked at a sync point after its
+//! freeze block (hook `set_sync_callback`) while the main thread ingests (and a second thread may call force_flush), at
+//! every labelled boundary; released; quiescence; clean restart; dump.  The history line carries the flush as its
+//! steps (`Zb Zp Zm Zd Zx`) with the calls in between; dumps are also taken while the flush is parked.
 #[path = "store/common.rs"]
 mod store_common;
 use store_common::*;
@@ -17,8 +21,13 @@ fn main() {
     let mut cases = Cases::create(&args.out);
     let null_loss = probe_null_loss();
     let tables: Vec<String> = TABLE_POOL[..3].iter().map(|s| s.to_string()).collect();
+    // interleaved phase first (the sync-point gate is process-global: no other flush may run in this process meanwhile)
+    let ijobs = inter_jobs(&args, &mut rng, &tables, &plain_column_pool(), null_loss);
+    install_gate();
+    let mut results = par_map(ijobs, 8, |job: Job| { let obs = run_history(&job.cfg, &job.steps); (job, obs) });
+    uninstall_gate();
     let jobs = standard_jobs(&args, &mut rng, &tables, &plain_column_pool(), null_loss);
-    let results = par_map(jobs, 8, |job: Job| { let obs = run_history(&job.cfg, &job.steps); (job, obs) });
+    results.extend(par_map(jobs, 8, |job: Job| { let obs = run_history(&job.cfg, &job.steps); (job, obs) }));
     if null_loss {
         cases.push("probe:compaction-null-loss-present", "cfg=4,8388608,1,1,1000,67108864", "MT=[]", NULL_LOSS_NOTE);
     }
